@@ -643,25 +643,31 @@ def fam_getitem_array(rng):
     return Case("getitem %s %s" % (slice_tokens(items), lay.tokens()), chk, {"value": vals, "type": T})
 
 
-def _gen_jagged(rng, v, depth, boolean, none_p):
-    """a jagged index matching the list structure of v down `depth` levels, then int/bool leaves into the next level"""
+def _gen_jagged(rng, v, depth, boolean, none_p, row_p=0.0, top=True):
+    """a jagged index matching the list structure of v down `depth` levels, then int/bool leaves into the next level;
+    none_p: missing leaves; row_p: whole rows of the index missing (below the outermost level)"""
     if v is None:
         return None if rng.random() < 0.5 else []
+    if not top and row_p and rng.random() < row_p:
+        return None
     if depth == 0:
         n = len(v)
         if boolean:
-            return [rng.random() < 0.5 for _ in range(n)]
+            return [None if rng.random() < none_p else (rng.random() < 0.5) for _ in range(n)]
         return [None if rng.random() < none_p else (rng.randint(-n, n - 1) if n else 0) for _ in range(rng.randint(0, 3) if n else 0)]
-    return [_gen_jagged(rng, e, depth - 1, boolean, none_p) for e in v]
+    # (missing rows only among the rows of the index array itself; deeper ones: KF-C01-jagged-missing-rows-nested)
+    return [_gen_jagged(rng, e, depth - 1, boolean, none_p, row_p if top else 0.0, False) for e in v]
 
 
-def _jag_type(depth, boolean, none_p):
+def _jag_type(depth, boolean, none_p, row_p=0.0):
     T = ("num", "bool" if boolean else "int64")
-    if none_p > 0 and not boolean:
+    if none_p > 0:
         T = ("option", T)
     T = ("list", T)
     for _ in range(depth):
         T = ("list", T)
+    if row_p:
+        T = ("option", T)
     return T
 
 
@@ -675,9 +681,11 @@ def fam_getitem_jagged(rng):
     if depth is None:
         return None
     boolean = rng.random() < 0.35
-    none_p = 0.0 if boolean or rng.random() < 0.6 else 0.25
-    J = _gen_jagged(rng, vals, depth, boolean, none_p)
-    JT = _jag_type(depth - 1, boolean, none_p)     # element type of the index array J (a list of ...)
+    none_p = 0.0 if rng.random() < 0.6 else 0.25         # missing entries inside the rows (integers and booleans)
+    # whole rows of the index missing: one-level jagged indexes only (KF-C01-jagged-missing-rows-nested)
+    row_p = 0.2 if (depth == 1 and rng.random() < 0.4) else 0.0
+    J = _gen_jagged(rng, vals, depth, boolean, none_p, row_p)
+    JT = _jag_type(depth - 1, boolean, none_p, row_p)     # element type of the index array J (a list of ...)
     # J is a list (the array) of values of type: depth-1 more list levels, then the int/bool list
     jl = L.Enc(rng, style="canonical").encode(J, JT)
     try:
@@ -811,6 +819,30 @@ def fam_concat(rng):
     simplify) yields the elements of the first array followed by those of the others, each unchanged as a value;
     numeric leaves are promoted as numpy.concatenate promotes them"""
     import numpy as np
+    if rng.random() < 0.08:
+        # datetimes / time differences stored in different units: every element keeps its instant (the result takes the
+        # finest unit among the inputs); flat or as the content of lists
+        kind = rng.choice(["M8", "m8"])
+        ns = {"s": 10**9, "ms": 10**6, "us": 10**3}
+        arrays, lays = [], []
+        nested = rng.random() < 0.4
+        for _ in range(rng.randint(2, 3)):
+            unit = rng.choice(["s", "ms", "us", "s"])
+            if nested:
+                ticks = [[rng.randint(-9, 9) for _ in range(rng.randint(0, 3))] for _ in range(rng.randint(0, 3))]
+                flat = [t for row in ticks for t in row]
+                offs = [0]
+                for row in ticks:
+                    offs.append(offs[-1] + len(row))
+                lays.append(L.LO(rng.choice(["32", "64"]), offs, L.NP("%s[%s]" % (kind, unit), flat)))
+                arrays.append([[("dt" if kind == "M8" else "td", t * ns[unit]) for t in row] for row in ticks])
+            else:
+                ticks = [rng.randint(-9, 9) for _ in range(rng.randint(0, 4))]
+                lays.append(L.NP("%s[%s]" % (kind, unit), ticks))
+                arrays.append([("dt" if kind == "M8" else "td", t * ns[unit]) for t in ticks])
+        ref = [v for a in arrays for v in a]
+        return Case("concat 1 1 %d %s" % (len(lays), " ".join(l.tokens() for l in lays)),
+                    expect_value(ref, "concatenate(%r)" % (arrays,), cmp=L.same, want_valid=True), {"value": ref})
     k = rng.randint(2, 3)
     mode = rng.choice(["same", "same", "numeric", "numeric", "different", "rect"])
     T0 = gen_pure(rng, rng.randint(0, 2), regular=0.15, leafrec=0.0 if mode == "numeric" else 0.15)
@@ -942,6 +974,24 @@ def fam_simplify_union(rng):
     lay = L.Enc(rng).encode(vals, T)
     if not isinstance(lay, L.UN):
         return None
+    if len(lay.contents) == 3 and rng.random() < 0.5:
+        # a union nested in a union (what concatenation builds before simplifying): two of the three contents are
+        # grouped into an inner union, placed first or second
+        a, b, c = rng.sample(range(3), 3)
+        cb, cc = lay.contents[b], lay.contents[c]
+        inner = L.UN(rng.choice(["32", "U32", "64"]), [0] * cb.length() + [1] * cc.length(),
+                     list(range(cb.length())) + list(range(cc.length())), [cb, cc])
+        first = rng.random() < 0.5
+        pos_inner, pos_a = (0, 1) if first else (1, 0)
+        tags, index = [], []
+        for t, i in zip(lay.tags, lay.index):
+            if t == a:
+                tags.append(pos_a); index.append(i)
+            elif t == b:
+                tags.append(pos_inner); index.append(i)
+            else:
+                tags.append(pos_inner); index.append(cb.length() + i)
+        lay = L.UN(lay.width, tags, index, [inner, lay.contents[a]] if first else [lay.contents[a], inner])
     mergebool = rng.random() < 0.5
     return Case("convert simplify_uniontype 1 %d %s" % (mergebool, lay.tokens()),
                 expect_value(vals, "simplify_uniontype(merge=True, mergebool=%s) of %r" % (mergebool, vals)), {"value": vals})
